@@ -18,8 +18,9 @@ OneDim ==
   \cup {[Base EXCEPT !.tags = t] : t \in TagSets} \cup {[Base EXCEPT !.resp = r] : r \in RespMaps}
   \cup {[Base EXCEPT !.blocks = b] : b \in BlockSets} \cup {[Base EXCEPT !.params = k] : k \in ParamSets}
   \cup {[Base EXCEPT !.spell = s, !.params = {"q_int_bounds", "header_str_len", "q_strings_items"}] : s \in Spellings}
-Programs == {[op |-> o, merge |-> FALSE] : o \in OneDim} \cup {[op |-> Base, merge |-> TRUE]}
-            \cup {[op |-> o, merge |-> mg] : o \in RandomSubset(NSample, OpsAll), mg \in {FALSE}}
+Programs == {[op |-> o, merge |-> "none"] : o \in OneDim} \cup {[op |-> Base, merge |-> "unrelated"]}
+            \cup {[op |-> [Base EXCEPT !.method = m, !.id = "op" \o m, !.params = {"q_string", "q_int_bounds"}], merge |-> "same_op"] : m \in Methods}
+            \cup {[op |-> o, merge |-> "none"] : o \in RandomSubset(NSample, OpsAll)}
 LineSeqs == UNION {[1..n -> LineClasses] : n \in 1..MaxLines}
 Hosts == {"model", "route", "field", "package", "params"}
 Init1 == c \in {[kind |-> "program", p |-> p] : p \in Programs}
